@@ -102,7 +102,10 @@ def build(bp, variant: Optional[dict] = None, classes: Optional[dict] = None, su
 
     classes = classes or universe.CLASSES
     B = Built(bp)
+    # one generator per factor, so that each factor alone reproduces its share of a variant
     rng = random.Random(variant["seed"]) if variant else None
+    rng_d = random.Random(variant["seed"] * 3 + 1) if variant else None
+    rng_a = random.Random(variant["seed"] * 3 + 2) if variant else None
     for idx, node in enumerate(bp["nodes"]):
         if upto is not None and idx >= upto:
             break
@@ -111,14 +114,14 @@ def build(bp, variant: Optional[dict] = None, classes: Optional[dict] = None, su
         later = []
         if variant:
             if variant.get("dicts"):
-                args = [[k, _permute_dicts(rng, v)] for k, v in args]
+                args = [[k, _permute_dicts(rng_d, v)] for k, v in args]
             if variant.get("kw"):
                 args = _shuffled(rng, args)
             frac = variant.get("assign", 0)
             if frac:
                 ctor = []
                 for a in args:
-                    (later if rng.randrange(100) < frac else ctor).append(a)
+                    (later if rng_a.randrange(100) < frac else ctor).append(a)
                 args = ctor
         kwargs = {k: B.decode(v) for k, v in args}
         if node.get("tagged"):
